@@ -277,7 +277,7 @@ func Invoke(srv any, iface reflect.Type, name string, reqs []any) (res Result, h
 
 // ---------- generic NeoFS API message access ----------
 
-// StatusOf returns the NeoFS status code and message of a response message (0 = OK); ok=false if
+// StatusOf returns the NeoFS status code and message (with detail values appended) of a response message (0 = OK); ok=false if
 // the message has no meta header accessor.
 func StatusOf(m proto.Message) (code uint32, msg string, ok bool) {
 	g := reflect.ValueOf(m).MethodByName("GetMetaHeader")
@@ -288,7 +288,11 @@ func StatusOf(m proto.Message) (code uint32, msg string, ok bool) {
 	for mh.GetOrigin() != nil {
 		mh = mh.GetOrigin()
 	}
-	return mh.GetStatus().GetCode(), mh.GetStatus().GetMessage(), true
+	msg = mh.GetStatus().GetMessage()
+	for _, d := range mh.GetStatus().GetDetails() { // e.g. the reason of ACCESS_DENIED
+		msg += " | " + string(d.GetValue())
+	}
+	return mh.GetStatus().GetCode(), msg, true
 }
 
 // BodySize returns the encoded size of the message's body field (0 if absent/empty).
@@ -314,8 +318,8 @@ type anyRequest struct {
 	vh   *protosession.RequestVerificationHeader
 }
 
-func (a anyRequest) GetBody() neofscrypto.ProtoMessage                      { return a.body }
-func (a anyRequest) GetMetaHeader() *protosession.RequestMetaHeader         { return a.meta }
+func (a anyRequest) GetBody() neofscrypto.ProtoMessage                        { return a.body }
+func (a anyRequest) GetMetaHeader() *protosession.RequestMetaHeader           { return a.meta }
 func (a anyRequest) GetVerifyHeader() *protosession.RequestVerificationHeader { return a.vh }
 
 // nilBody marshals as the empty message (what the SDK signs for a nil typed body).
